@@ -306,6 +306,40 @@ def feed_driver(res, label, lines, trivial=None):
             res.samples.append(("[%s] " % label) + (l if len(l) < 400 else l[:400] + " …"))
 
 
+def merge_results(res, parts):
+    for r in parts:
+        res.lines += r.lines
+        res.ok += r.ok
+        res.modeldiff += r.modeldiff
+        res.specfail += r.specfail
+        res.bad += r.bad
+        for k, v in r.classes.items():
+            res.classes[k] = res.classes.get(k, 0) + v
+        res.samples += r.samples
+        res.distinct |= r.distinct
+        if r.harness_rc != 0:
+            res.harness_rc = r.harness_rc
+        res.harness_err += r.harness_err
+        res.driver_rc = res.driver_rc or r.driver_rc
+        res.streams += r.streams
+
+
+def run_streams_parallel(res, jobs, workers=6):
+    """jobs: list of dict(label=, exe=, env=, args=, line_filter=, trivial=, timeout=); each runs harness → driver in
+    its own thread (separate driver process), results merged into `res` in job order."""
+    from concurrent.futures import ThreadPoolExecutor
+
+    def one(j):
+        r = StreamResult()
+        run_stream(r, j["label"], j["exe"], env=j.get("env"), args=j.get("args"), line_filter=j.get("line_filter"),
+                   trivial=j.get("trivial"), timeout=j.get("timeout", 3000))
+        return r
+
+    with ThreadPoolExecutor(max_workers=workers) as ex:
+        parts = list(ex.map(one, jobs))
+    merge_results(res, parts)
+
+
 # ---------------------------------------------------------------------------------------------
 # Decision + evidence
 # ---------------------------------------------------------------------------------------------
